@@ -69,6 +69,7 @@ fn strip_allow(v: &Value) -> Value {
 }
 
 struct RunOut {
+    at: Vec<(String, usize)>,                     // file and start row of each diagnostic ("" / 0 without a span)
     diags: Vec<(String, String, String, String)>, // code, message, span, level
     ast: Value,
     errors: usize,
@@ -96,42 +97,69 @@ fn compile(dir: &std::path::Path, argv: &[String]) -> Result<RunOut, String> {
         })
         .collect();
     let errors = list.iter().filter(|d| d.level() == DiagnosticLevel::Error).count();
-    Ok(RunOut { diags, ast, errors })
+    let at = list.iter().map(|d| d.span().map(|s| (s.file.clone(), s.start.row)).unwrap_or_default()).collect();
+    Ok(RunOut { at, diags, ast, errors })
 }
 
-/// MC_ManyLints: seven lint sites (row, code) on four elements; attribute slots on the same lines as what they precede
-const MANY_SITES: &[(usize, &str)] = &[(3, "BrokenDocLink"), (4, "IncorrectDocComment"), (6, "BrokenDocLink"), (7, "Deprecated"), (11, "IncorrectDocComment"), (12, "BrokenDocLink"), (13, "Deprecated")];
+/// MC_ManyLints: ten lint sites (row, code) on six elements; attribute slots on the same lines as what they precede.
+/// The same text is used for both files (module M / module N), so every site has a twin at the same row and column.
+const MANY_SITES: &[(usize, &str)] = &[
+    (3, "BrokenDocLink"),
+    (4, "IncorrectDocComment"),
+    (6, "BrokenDocLink"),
+    (7, "Deprecated"),
+    (12, "IncorrectDocComment"),
+    (13, "BrokenDocLink"),
+    (14, "Deprecated"),
+    (8, "IncorrectDocComment"),
+    (17, "IncorrectDocComment"),
+    (18, "Deprecated"),
+];
+const MANY_FILES: [&str; 2] = ["a.slice", "twin.slice"];
 
-fn many_template(slot: &dyn Fn(&str) -> String, present: &[u64]) -> String {
+/// file 0: module M, slots as named; file 1: module N, slots named t<name>
+fn many_template(file: usize, slot: &dyn Fn(&str) -> String, present: &[bool]) -> String {
+    let has = |site: usize| present.get(site - 1).copied().unwrap_or(false);
     // an absent lint site keeps its row: the comment line becomes an ordinary comment, the deprecated type an int32
-    let doc = |site: u64, text: &str| if present.contains(&site) { format!("/// {text}") } else { "// nothing".to_owned() };
-    let ty = |site: u64| if present.contains(&site) { "Old" } else { "int32" };
-    format!(
-        "{}module M\n[deprecated] struct Old {{}}\n{}\n{}\n{}struct S {{\n  {}\n  {}x: {}\n  {}y: int32\n}}\n\
-{}interface I {{\n  {}\n  {}\n  {}op({}p: {})\n}}\n",
-        slot("file"),
-        doc(1, "See {@link Nope1}."),
-        doc(2, "@param zz: not a parameter"),
-        slot("S"),
-        doc(3, "{@link Nope2}"),
-        slot("X"),
-        ty(4),
-        slot("Y"),
-        slot("I"),
-        doc(5, "@param nope: no such parameter"),
-        doc(6, "@see Nope3"),
-        slot("OP"),
-        slot("P"),
-        ty(7)
-    )
+    let doc = |site: usize, text: &str| if has(site) { format!("/// {text}") } else { "// nothing".to_owned() };
+    let ty = |site: usize| if has(site) { "Old" } else { "int32" };
+    let sl = |name: &str| -> String {
+        if file == 0 {
+            slot(name)
+        } else {
+            slot(&format!("t{name}"))
+        }
+    };
+    let mut t = String::new();
+    t.push_str(&format!("{}module {}\n", sl("file"), ["M", "N"][file]));
+    t.push_str("[deprecated] struct Old {}\n");
+    t.push_str(&format!("{}\n{}\n", doc(1, "See {@link Nope1}."), doc(2, "@param zz: not a parameter")));
+    t.push_str(&format!("{}struct S {{\n", sl("S")));
+    t.push_str(&format!("  {}\n  {}x: {}\n", doc(3, "{@link Nope2}"), sl("X"), ty(4)));
+    t.push_str(&format!("  {}\n  {}y: int32\n}}\n", doc(8, "@param zz: fields have no parameters"), sl("Y")));
+    t.push_str(&format!("{}interface I {{\n", sl("I")));
+    t.push_str(&format!("  {}\n  {}\n", doc(5, "@param nope: no such parameter"), doc(6, "@see Nope3")));
+    t.push_str(&format!("  {}op({}p: {})\n}}\n", sl("OP"), sl("P"), ty(7)));
+    t.push_str(&format!("{}enum E {{\n", sl("E")));
+    t.push_str(&format!("  {}\n  {}A({}f: {})\n  B\n}}\n", doc(9, "@returns: enumerators return nothing"), sl("EA"), sl("EF"), ty(10)));
+    t
 }
 
 /// C14 on the many-lints program: what the emitter writes, in both formats, is exactly the lints the MODEL says are not
 /// suppressed - each once, in the order they were recorded - and no trace of the suppressed ones.
-fn emitted_many(dir: &std::path::Path, argv: &[String], sites: &[(usize, (usize, &str))], case: &Value) -> Option<Value> {
+fn emitted_many(dir: &std::path::Path, argv: &[String], sites: &[(usize, usize, usize, &str)], case: &Value) -> Option<Value> {
     use slicec::diagnostic_emitter::DiagnosticEmitter;
-    let mut shown: Vec<Vec<(String, usize)>> = Vec::new();
-    let mut order: Vec<(String, usize)> = Vec::new();
+    let mut shown: Vec<Vec<(String, String, usize)>> = Vec::new();
+    let mut order: Vec<(String, String, usize)> = Vec::new();
+    let compile_in = |options: &SliceOptions| {
+        let prev = std::env::current_dir().ok();
+        let _ = std::env::set_current_dir(dir);
+        let state = slicec::compile_from_options(options);
+        if let Some(p) = prev {
+            let _ = std::env::set_current_dir(p);
+        }
+        state
+    };
     for format in ["json", "human"] {
         let mut a = argv.to_vec();
         a.extend(["--diagnostic-format".to_owned(), format.to_owned(), "--disable-color".to_owned()]);
@@ -139,39 +167,25 @@ fn emitted_many(dir: &std::path::Path, argv: &[String], sites: &[(usize, (usize,
             Ok(o) => o,
             Err(e) => return Some(json!({"kind": "harness", "what": format!("command line rejected: {}", e.kind())})),
         };
-        let prev = std::env::current_dir().ok();
-        let _ = std::env::set_current_dir(dir);
-        let state = slicec::compile_from_options(&options);
-        if let Some(p) = prev {
-            let _ = std::env::set_current_dir(p);
-        }
+        let state = compile_in(&options);
         let files = state.files;
         let ast = state.ast;
         // the recorded order, before levels are assigned
-        order = state.diagnostics.into_inner().iter().map(|d| (d.code().to_owned(), d.span().map(|s| s.start.row).unwrap_or(0))).collect();
-        let state2 = {
-            let prev = std::env::current_dir().ok();
-            let _ = std::env::set_current_dir(dir);
-            let st = slicec::compile_from_options(&options);
-            if let Some(p) = prev {
-                let _ = std::env::set_current_dir(p);
-            }
-            st
-        };
-        let diags = state2.diagnostics.into_updated(&ast, &files, &options);
+        order = state.diagnostics.into_inner().iter().map(|d| (d.code().to_owned(), d.span().map(|s| s.file.clone()).unwrap_or_default(), d.span().map(|s| s.start.row).unwrap_or(0))).collect();
+        let diags = compile_in(&options).diagnostics.into_updated(&ast, &files, &options);
         let mut out: Vec<u8> = Vec::new();
         {
             let mut emitter = DiagnosticEmitter::new(&mut out, &options, &files);
             let _ = emitter.emit_diagnostics(diags);
         }
         let text = String::from_utf8_lossy(&out).to_string();
-        let mut recs: Vec<(String, usize)> = Vec::new();
+        let mut recs: Vec<(String, String, usize)> = Vec::new();
         if format == "json" {
             for line in text.lines() {
                 let Ok(v) = serde_json::from_str::<Value>(line) else {
                     return Some(json!({"kind": "mismatch", "what": "a line of the JSON diagnostic stream is not a JSON object", "line": line}));
                 };
-                recs.push((v["error_code"].as_str().unwrap_or("").to_owned(), v["span"]["start"]["row"].as_u64().unwrap_or(0) as usize));
+                recs.push((v["error_code"].as_str().unwrap_or("").to_owned(), v["span"]["file"].as_str().unwrap_or("").to_owned(), v["span"]["start"]["row"].as_u64().unwrap_or(0) as usize));
             }
         } else {
             let lines: Vec<&str> = text.lines().collect();
@@ -179,15 +193,15 @@ fn emitted_many(dir: &std::path::Path, argv: &[String], sites: &[(usize, (usize,
                 if let Some(rest) = l.strip_prefix("warning [").or_else(|| l.strip_prefix("error [")) {
                     let code = rest.split(']').next().unwrap_or("").to_owned();
                     // the location line follows the header: ' --> file:row:col'
-                    let row = lines.get(i + 1).and_then(|x| x.strip_prefix(" --> ")).and_then(|x| x.split(':').nth(1)).and_then(|x| x.parse().ok()).unwrap_or(0);
-                    recs.push((code, row));
+                    let loc: Vec<&str> = lines.get(i + 1).and_then(|x| x.strip_prefix(" --> ")).map(|x| x.split(':').collect()).unwrap_or_default();
+                    recs.push((code, loc.first().copied().unwrap_or("").to_owned(), loc.get(1).and_then(|x| x.parse().ok()).unwrap_or(0)));
                 }
             }
         }
         shown.push(recs);
     }
-    let silenced = |code: &str, row: usize| -> bool { sites.iter().any(|(i, (r, c))| *c == code && *r == row && case["silenced"][*i] == true) };
-    let want: Vec<(String, usize)> = order.iter().filter(|(c, r)| !silenced(c, *r)).cloned().collect();
+    let silenced = |code: &str, file: &str, row: usize| -> bool { sites.iter().any(|(f, i, r, c)| *c == code && *r == row && MANY_FILES[*f] == file && case["silenced"][*f][*i] == true) };
+    let want: Vec<(String, String, usize)> = order.iter().filter(|(c, f, r)| !silenced(c, f, *r)).cloned().collect();
     for (k, format) in ["json", "human"].iter().enumerate() {
         if shown[k] != want {
             return Some(mismatch(
@@ -209,36 +223,42 @@ impl Lints {
             let a = args_of(slot);
             if a.is_empty() {
                 String::new()
-            } else if slot == "file" {
+            } else if slot == "file" || slot == "tfile" {
                 format!("[[allow({})]] ", a.join(", "))
             } else {
                 format!("[allow({})] ", a.join(", "))
             }
         };
         let none = |_: &str| String::new();
-        let present: Vec<u64> = case["present"].as_array().cloned().unwrap_or_default().iter().filter_map(|x| x.as_u64()).collect();
-        let sites: Vec<(usize, (usize, &str))> = MANY_SITES.iter().copied().enumerate().filter(|(i, _)| present.contains(&(*i as u64 + 1))).collect();
-        let base_text = many_template(&none, &present);
-        let supp_text = many_template(&with, &present);
-        let other_base = "module N\nstruct Other { o: int32 }\n".to_owned();
-        let oa = args_of("otherfile");
-        let other_supp = if oa.is_empty() { other_base.clone() } else { format!("[[allow({})]] {other_base}", oa.join(", ")) };
+        let present: Vec<bool> = case["present"].as_array().cloned().unwrap_or_default().iter().map(|x| x == true).collect();
+        // (file, site index, row, code) of every lint the two files contain
+        let mut sites: Vec<(usize, usize, usize, &str)> = Vec::new();
+        for f in 0..2 {
+            for (i, (row, code)) in MANY_SITES.iter().enumerate() {
+                if present.get(i).copied().unwrap_or(false) {
+                    sites.push((f, i, *row, code));
+                }
+            }
+        }
         let work = std::env::var("VERIF_WORK").unwrap_or_else(|_| "/verif/work".into());
         let dir = std::path::PathBuf::from(format!("{work}/lints-{}/{}", std::process::id(), self.counter));
         let _ = std::fs::remove_dir_all(&dir);
         std::fs::create_dir_all(dir.join("b")).unwrap();
         std::fs::create_dir_all(dir.join("s")).unwrap();
-        std::fs::write(dir.join("b/a.slice"), &base_text).unwrap();
-        std::fs::write(dir.join("b/other.slice"), &other_base).unwrap();
-        std::fs::write(dir.join("s/a.slice"), &supp_text).unwrap();
-        std::fs::write(dir.join("s/other.slice"), &other_supp).unwrap();
-        let argv: Vec<String> = vec!["slicec".into(), "a.slice".into(), "other.slice".into()];
+        let mut shown_texts = Vec::new();
+        for f in 0..2 {
+            std::fs::write(dir.join("b").join(MANY_FILES[f]), many_template(f, &none, &present)).unwrap();
+            let t = many_template(f, &with, &present);
+            std::fs::write(dir.join("s").join(MANY_FILES[f]), &t).unwrap();
+            shown_texts.push(t);
+        }
+        let argv: Vec<String> = vec!["slicec".into(), MANY_FILES[0].into(), MANY_FILES[1].into()];
         let mut argv_supp = argv.clone();
         for n in args_of("cli") {
             argv_supp.push("--allow".into());
             argv_supp.push(n);
         }
-        let rendered = json!({"a.slice": supp_text, "other.slice": other_supp, "argv": argv_supp});
+        let rendered = json!({"a.slice": shown_texts[0], "twin.slice": shown_texts[1], "argv": argv_supp});
         let key = hash_str(&rendered.to_string());
         let emit_mode = std::env::var("VERIF_LINTS_MODE").map(|m| m == "emit").unwrap_or(false);
         let fail = (|| {
@@ -253,15 +273,11 @@ impl Lints {
                 Ok(r) => r,
                 Err(e) => return Some(mismatch("a lint name the command line should accept ", json!("accepted"), json!(e))),
             };
-            let row_of = |d: &(String, String, String, String)| -> usize {
-                // span is printed as Some(("a.slice", start row, end row))
-                d.2.split(", ").nth(1).and_then(|x| x.trim().parse().ok()).unwrap_or(0)
-            };
             // the baseline shows every site once, as a warning, and nothing else
-            for (_, (row, code)) in &sites {
-                let n = base.diags.iter().filter(|d| d.0 == *code && row_of(d) == *row && d.3 == "Warning").count();
+            for (f, _, row, code) in &sites {
+                let n = base.diags.iter().zip(base.at.iter()).filter(|(d, at)| d.0 == *code && at.0 == MANY_FILES[*f] && at.1 == *row && d.3 == "Warning").count();
                 if n != 1 {
-                    return Some(json!({"kind": "harness", "what": "the template does not produce each lint once as a warning", "site": [row, code], "diags": format!("{:?}", base.diags)}));
+                    return Some(json!({"kind": "harness", "what": "the template does not produce each lint once as a warning", "site": [MANY_FILES[*f], row, code], "diags": format!("{:?}", base.diags)}));
                 }
             }
             if base.diags.len() != sites.len() || base.errors != 0 || supp.errors != 0 {
@@ -271,11 +287,11 @@ impl Lints {
             if strip(&base.diags) != strip(&supp.diags) {
                 return Some(mismatch("the suppressions changed which diagnostics exist", json!(format!("{:?}", base.diags)), json!(format!("{:?}", supp.diags))));
             }
-            for (i, (row, code)) in &sites {
-                let want = if case["silenced"][*i] == true { "Allowed" } else { "Warning" };
-                let got: Vec<&str> = supp.diags.iter().filter(|d| d.0 == *code && row_of(d) == *row).map(|d| d.3.as_str()).collect();
+            for (f, i, row, code) in &sites {
+                let want = if case["silenced"][*f][*i] == true { "Allowed" } else { "Warning" };
+                let got: Vec<&str> = supp.diags.iter().zip(supp.at.iter()).filter(|(d, at)| d.0 == *code && at.0 == MANY_FILES[*f] && at.1 == *row).map(|(d, _)| d.3.as_str()).collect();
                 if got != vec![want] {
-                    return Some(mismatch(&format!("level of the {code} lint of row {row} (site {})", i + 1), json!(want), json!(got)));
+                    return Some(mismatch(&format!("level of the {code} lint of {} row {row} (site {})", MANY_FILES[*f], i + 1), json!(want), json!(got)));
                 }
             }
             if base.ast != supp.ast {
